@@ -207,10 +207,6 @@ impl Screen {
             return; // No changes.
         }
 
-        // Rows of the old geometry that no longer exist must not stay marked.
-        self.dirty.clear();
-        self.dirty.extend(0..lines);
-
         if lines < self.lines {
             self.save_cursor();
             // The scrolling region must not confine the row drop.
@@ -229,6 +225,12 @@ impl Screen {
 
         (self.lines, self.columns) = (lines, columns);
         self.set_margins(None, None);
+
+        // Every row of the new geometry is dirty; rows of the old geometry
+        // that no longer exist (the row drop above marks them) must not
+        // stay marked.
+        self.dirty.clear();
+        self.dirty.extend(0..lines);
 
         // The cursor must end inside the new bounds.
         self.ensure_hbounds();
